@@ -20,7 +20,8 @@ MAXTASKS = 1
 
 FLAGSETS = ['GE', 'GEK', 'GEO', 'GDEK', 'GEY', 'GEX', 'GEKO', 'E', 'GDEYK', 'GEBS']
 LISTS = [(['a', 'a/*'], 'GE'), (['*/', 'a/'], 'GEK'), (['{a,b}', '.h'], 'GEB'), (['a|*/a'], 'GES'), (['*', '!a'], 'GEN'),
-         (['**', '!*/'], 'GENO'), (['{a,b,.h}'], 'GEBO'), (['a|b|.h'], 'GESO'), (['a', 'b'], 'GEO')]
+         (['**', '!*/'], 'GENO'), (['{a,b,.h}'], 'GEBO'), (['a|b|.h'], 'GESO'), (['a', 'b'], 'GEO'),
+         (['a', '*/a'], 'GE'), (['*', '*/*'], 'GEK'), (['a/*', '**/b'], 'GE')]
 
 
 def is_abs_list(p):
